@@ -14,7 +14,7 @@ except ImportError:  # pragma: no cover - older interpreters
     import sre_constants as _sc
 
 from .core import Unsupported, tb, conj, disj, neg
-from .strs import SymStr, classify, A, B, C1, C2, W, PLUS, MINUS, US, O
+from .strs import SymStr, classify, A, B, C1, C2, W, PLUS, MINUS, US, O, DOT
 
 
 def _lit(c, code):
@@ -22,7 +22,7 @@ def _lit(c, code):
     k = classify(ch)
     if k == A:
         return conj(c.grp == A, c.dig == int(ch))
-    if k in (PLUS, MINUS, US):
+    if k in (PLUS, MINUS, US, DOT):
         return c.grp == k
     raise Unsupported("regex literal %r on a symbolic character" % ch)
 
